@@ -39,6 +39,18 @@ FineFaces(c) == {<<c[1], a2, c2>> : a2 \in (4*c[2])..(4*c[2]+4), c2 \in (4*c[3])
 HierarchyOK == \A f \in FineFaces(cl) :
                   \A fc \in StarFace(2 * n, f) : ParentCell(fc, 2) \in StarFace(n, CoarsenFace(f, 2))
 
+(* C14 at model level: the explicit walk is a closed walk of adjacent cells visiting exactly the border
+   descendants once, and the side/corner filing of the external edge is the geometric external edge *)
+SeqSet(s) == {s[k] : k \in 1..Len(s)}
+EdgesOK == \A M \in {2, 4} : n * M <= 16 =>
+             LET w == InternalEdgeWalk(cl, M) IN
+             /\ Len(w) = 4 * M - 4 /\ SeqSet(w) = InternalEdgeSet(cl, M) /\ Cardinality(SeqSet(w)) = Len(w)
+             /\ w[1] = InternalCorner(cl, M, "S")
+             /\ \A k \in 1..Len(w) : w[(k % Len(w)) + 1] \in Neigh(n * M, w[k])
+             /\ ExternalEdgeFiled(n, cl, M) = ExternalEdgeGeo(n, cl, M)
+             /\ \A o \in Ordinals : Cardinality(ExternalSide(n, cl, M, o)) = M
+             /\ \A d \in Cardinals : Cardinality(ExternalCorner(n, cl, M, d)) = (IF NeighAt(n, cl, d) = {} THEN 0 ELSE 1)
+
 ASSUME \A N \in Ns : Cardinality(Points(N)) = 12 * N * N + 2                                   \* Euler
 ASSUME \A N \in Ns : Cardinality({p \in Points(N) : Cardinality(Star(N, p)) = 3}) = 8
 ASSUME \A N \in Ns : \A p \in Points(N) : Reps(N, p) = RepsBrute(N, p)
